@@ -71,6 +71,7 @@ type Interp struct {
 	solver  *Solver
 	solver2 *Solver // optional cross-check
 	globals map[*ssa.Global]*value
+	frozen  map[*ssa.Global]*value
 	initPkgs []*ssa.Package
 
 	// path state
@@ -84,6 +85,7 @@ type Interp struct {
 	observes map[string]*Term
 	nameCtr  map[string]int
 	allocLimit int64
+	allocCut   bool
 
 	// scheduler
 	threads   []*thread
@@ -114,6 +116,8 @@ type Interp struct {
 	ghost      map[string]value
 	callDepth  int
 	pathDone   chan pathResult
+	blobs      map[int]*jsonBlob
+	blobSeq    int
 	varMemo    map[int][]int
 	noSlice    bool
 	loopSpecs  map[string]*loopSpec
@@ -149,6 +153,7 @@ type HarnessRun struct {
 	UnknownBranches int
 	Samples      []string
 	IfConverted  int
+	AllocCuts    int
 	Sliced       int
 }
 
@@ -1010,6 +1015,10 @@ func (in *Interp) makeLen(n *Term, msg string, pos token.Pos, fr *frame) int64 {
 		panic(runtimePanic{msg})
 	}
 	if !in.branch(in.tt.SLe(n, in.tt.Const(64, uint64(lim))), "makelen<=limit") {
+		if in.allocCut {
+			in.h.AllocCuts++
+			panic(pathEnd{"allocation above the stated bound (outside the claim)"})
+		}
 		// an allocation whose size the input controls beyond the declared limit
 		in.reportViolation(fr, "alloc-limit", "alloc", fmt.Sprintf("allocation at %s with input-controlled length above the declared limit %d", in.where(fr, pos), lim), nil)
 		panic(pathEnd{"allocation above limit"})
